@@ -122,6 +122,23 @@ def gen(rng, tier):
         ops.append("CErr")
         line = "C %d %d ; " % (cprec, cmode) + " ; ".join([v.item() for v in vs] + ["O " + o for o in ops])
         yield dict(family="context-sequence", vars=vs, ops=ops, line=line, cprec=cprec, cmode=cmode)
+    for c in gen_big_prec(rng, 40 * n):
+        yield c
+
+
+def gen_big_prec(rng, count):
+    for _ in range(count):
+        cp = rng.choice([2**32, 2**33, 2**32 - 1, 2**32 + 1, 3 * 2**32, 2**63])
+        vs = [C01.recv(rng, prec=5), C01.recv(rng, prec=5), common.rand_fin(rng, 40, wide=False), common.rand_fin(rng, 40, wide=False),
+              zero(0), inf(0)]
+        ops = ["CSetPrec %d" % cp]
+        for _ in range(rng.randint(2, 5)):
+            ops.append(rng.choice(["CAdd 0 2 3", "CMul 1 2 3", "CSub 0 3 2", "CSet 1 2", "CNeg 0 3", "CErr"]))
+        ops.append("CSetPrec %d" % rng.choice([3, 20]))
+        ops += ["CAdd 0 2 3", "CErr"]
+        cprec, cmode = rng.choice([5, 34]), rng.randint(0, 5)
+        line = "C %d %d ; " % (cprec, cmode) + " ; ".join([v.item() for v in vs] + ["O " + o for o in ops])
+        yield dict(family="context-huge-precision", vars=vs, ops=ops, line=line, cprec=cprec, cmode=cmode)
 
 
 def judge(cases, g, m):
@@ -179,6 +196,12 @@ def judge(cases, g, m):
                         latched = True
                     elif nanp:
                         latched = True
+                    elif zi not in [int(a) for a in t[2:]] and cprec > 100000:
+                        # precision far beyond every operand: the result is exact; only the attributes are checked here
+                        if (int(vs[zi][2]), int(vs[zi][3])) != (cprec, cmode):
+                            msg = "receiver has precision/mode %s/%s, context has %d/%d" % (vs[zi][2], vs[zi][3], cprec, cmode)
+                        elif vs[zi][0] == "1" and vs[zi][4] != "0":
+                            msg = "inexact result at precision %d" % cprec
                     elif zi not in [int(a) for a in t[2:]]:
                         JUDGE_STATS["rounding_checked"] += 1
                         # the receiver's own precision/mode are irrelevant: result rounded to the context
